@@ -1459,7 +1459,7 @@ fn main() {
     "a request rejected with an error both before and after is not judged".into(),
     "README: 'deletes ... are dropped on the next compaction' is read as: after a successful compact() the manifest counts no deleted document".into(),
   ];
-  let n = ctx.n(140, 3000);
+  let n = ctx.n(140, 24_000);
   let quick = ctx.quick();
   ctx.run_cases("compact", n, |rng: &mut Rng, l: &mut Local, scratch: &PathBuf| {
     let case = gen_case(rng, quick);
